@@ -15,7 +15,7 @@ func init() {
 		"(dawg.AnagramSearcher).AllowStep", "(dawg.AnagramSearcher).AllowWord", "(dawg.AnagramSearcher).Chosen"}
 	register(&propDef{
 		id:          "C13",
-		explanation: "Decides the structural part of the last sentence ('a search leaves the Dawg unchanged ...'): PURE ((*Dawg).Search, with Searcher calls resolved by module-restricted CHA to both implementations, writes nothing reachable from the Dawg), SEARCHER-RO (AllowStep, AllowWord and Chosen of both searchers write nothing reachable from the receiver, including through the counts/currPath slices a value receiver still shares), STEP-ONLY (inside Search the only instructions that may write searcher memory are the interface calls Step and Backstep), BALANCE (on every path to a return each searcher has received as many Backstep as Step calls: a local stack is pushed exactly once per complete Step pass over the searchers, popped exactly once per Backstep pass, nothing else changes it, and every return is guarded by its being empty); NARROW and MASKWIDTH (narrowing integer conversions, and the shift counts of one-bit masks indexed by a position, are proved to fit: a 64-bit mask of blank positions forgets position 64) and FIXEDARRAY (no fixed-size scratch array of package dawg is indexed by a counter that is not proved to stay in range). Does not decide the result set, its order, the ranks, or that Backstep exactly undoes Step.",
+		explanation: "Decides the structural part of the last sentence ('a search leaves the Dawg unchanged ...'): PURE ((*Dawg).Search, with Searcher calls resolved by module-restricted CHA to both implementations, writes nothing reachable from the Dawg), SEARCHER-RO (AllowStep, AllowWord and Chosen of both searchers write nothing reachable from the receiver, including through the counts/currPath slices a value receiver still shares), STEP-ONLY (inside Search the only instructions that may write searcher memory are the interface calls Step and Backstep), BALANCE (on every path to a return each searcher has received as many Backstep as Step calls: a local stack is pushed exactly once per complete Step pass over the searchers, popped exactly once per Backstep pass, nothing else changes it, and every return is guarded by its being empty); NARROW and MASKWIDTH (narrowing integer conversions, and the shift counts of one-bit masks indexed by a position, are proved to fit: a 64-bit mask of blank positions forgets position 64) FIXEDARRAY (no fixed-size scratch array of package dawg is indexed by a counter that is not proved to stay in range), COUNTERWIDTH (no tally kept in an 8/16-bit cell is bumped without a proof that it stays in range) and SORTLESS (the comparator of every sort.Slice call in package dawg indexes the slice being sorted and no other: sorted with a comparator over the unsorted original, equal letters are not adjacent, the anagram searcher's count table gets several entries for one letter, and Backstep returns a letter to the first of them only, so a search does not leave the searcher as it found it). Does not decide the result set, its order, the ranks, or that Backstep exactly undoes Step.",
 		notDecided:  []string{"that Search returns exactly the matching words in lexicographic order with correct ranks", "that Backstep restores exactly what Step changed (letter accounting)", "that Backstep exactly undoes one Step (BALANCE only counts calls)"},
 		assumptions: []string{"searchers passed to Search are the module's PatternSearcher/AnagramSearcher (closed world); a user-defined Searcher is outside the claim"},
 		run: func(c *Ctx, tier string) []*RuleResult {
@@ -34,7 +34,10 @@ func init() {
 			nw := ruleNarrow(c, searchFiles)
 			mw := ruleMaskWidth(c, searchFiles)
 			fa := ruleFixedArray(c, "dawg")
-			return []*RuleResult{pure, ro, so, bal, nw, mw, fa}
+			cw := ruleCounterWidth(c, "dawg")
+			sl := ruleSortLess(c, "dawg")
+			sl.MinInst = 2
+			return []*RuleResult{pure, ro, so, bal, nw, mw, fa, cw, sl}
 		},
 		controls: func(ctl *Ctx) []*RuleResult {
 			ro := &RuleResult{Rule: "SEARCHER-RO"}
@@ -56,7 +59,8 @@ func init() {
 			nw := ruleNarrow(ctl, inFiles("balctl.go"))
 			mw := ruleMaskWidth(ctl, inFiles("balctl.go"))
 			fa := ruleFixedArray(ctl, "balctl")
-			return []*RuleResult{ro, so, bal, nw, mw, fa}
+			cw := ruleCounterWidth(ctl, "livectl")
+			return []*RuleResult{ro, so, bal, nw, mw, fa, cw, ruleSortLess(ctl, "balctl")}
 		},
 	})
 }
@@ -961,5 +965,136 @@ func ruleFixedArray(c *Ctx, pkgRel string) *RuleResult {
 			}
 		}
 	}
+	return r
+}
+
+// ruleSortLess: the less function given to sort.Slice / sort.SliceStable is called with positions
+// of the slice being sorted *as it is while the sort moves elements around*. A comparator that
+// indexes a different slice (the unsorted original of a copy, say) compares stale values: the
+// result is not sorted, equal letters are not adjacent, and whatever is derived from adjacency
+// (a table of letter counts) has several entries for one letter.
+func ruleSortLess(c *Ctx, pkgRel string) *RuleResult {
+	r := &RuleResult{Rule: "SORTLESS", Doc: "the comparator of every sort.Slice call indexes the slice being sorted, with its own arguments, and no other slice", MinInst: 0}
+	nf := 0
+	for _, fn := range c.Funcs {
+		p := fnPkg(fn)
+		if p == nil || p.Pkg.Path() != c.Mod+"/"+pkgRel || fn.Synthetic != "" || fn.Blocks == nil {
+			continue
+		}
+		nf++
+		for _, b := range fn.Blocks {
+			for _, in := range b.Instrs {
+				call, ok := in.(*ssa.Call)
+				if !ok {
+					continue
+				}
+				cal := call.Call.StaticCallee()
+				if cal == nil || (cal.String() != "sort.Slice" && cal.String() != "sort.SliceStable") || len(call.Call.Args) != 2 {
+					continue
+				}
+				var sorted ssa.Value
+				if mi, ok := call.Call.Args[0].(*ssa.MakeInterface); ok {
+					sorted = mi.X
+				}
+				mc, isClosure := call.Call.Args[1].(*ssa.MakeClosure)
+				src := c.srcAt(call.Pos())
+				if src == "" {
+					src = "sort.Slice"
+				}
+				if len(src) > 60 {
+					src = src[:60] + "..."
+				}
+				if sorted == nil || !isClosure {
+					if f, isFn := call.Call.Args[1].(*ssa.Function); isFn && len(f.FreeVars) == 0 {
+						// a comparator without captured state cannot see the slice at all
+						r.inst("%s: %s", c.short(fn), src)
+						r.oblig(false)
+						r.find(c.short(fn)+":comparator does not see the sorted slice", c.instrPos(call), "%s: the comparator passed to %s captures nothing, so it cannot compare elements of the slice being sorted", c.short(fn), cal.String())
+						continue
+					}
+					r.undecided("%s: %s: comparator or sorted slice not recognised", c.short(fn), src)
+					continue
+				}
+				less := mc.Fn.(*ssa.Function)
+				r.inst("%s: %s", c.short(fn), src)
+				// which free variables stand for the sorted slice? (captured by value, or by reference
+				// to the variable it was loaded from)
+				isSorted := func(v ssa.Value) bool {
+					if v == sorted {
+						return true
+					}
+					if ld, ok := sorted.(*ssa.UnOp); ok && ld.Op == token.MUL && ld.X == v {
+						return true
+					}
+					return false
+				}
+				fvSorted := map[ssa.Value]bool{}
+				for k, bnd := range mc.Bindings {
+					if isSorted(bnd) {
+						fvSorted[less.FreeVars[k]] = true
+					}
+				}
+				bad := ""
+				derivesFromArg := func(v ssa.Value) bool {
+					seen := map[ssa.Value]bool{}
+					var walk func(v ssa.Value) bool
+					walk = func(v ssa.Value) bool {
+						if seen[v] {
+							return false
+						}
+						seen[v] = true
+						for _, q := range less.Params {
+							if v == q {
+								return true
+							}
+						}
+						switch x := v.(type) {
+						case *ssa.BinOp:
+							return walk(x.X) || walk(x.Y)
+						case *ssa.Convert:
+							return walk(x.X)
+						case *ssa.Phi:
+							for _, e := range x.Edges {
+								if walk(e) {
+									return true
+								}
+							}
+						}
+						return false
+					}
+					return walk(v)
+				}
+				for _, lb := range less.Blocks {
+					for _, li := range lb.Instrs {
+						var base, idx ssa.Value
+						switch x := li.(type) {
+						case *ssa.IndexAddr:
+							base, idx = x.X, x.Index
+						case *ssa.Index:
+							base, idx = x.X, x.Index
+						default:
+							continue
+						}
+						if !derivesFromArg(idx) {
+							continue
+						}
+						// base: a free variable (by value) or a load of one (by reference)
+						root := base
+						if ld, ok := root.(*ssa.UnOp); ok && ld.Op == token.MUL {
+							root = ld.X
+						}
+						if _, isFV := root.(*ssa.FreeVar); isFV && !fvSorted[root] {
+							bad = root.Name()
+						}
+					}
+				}
+				r.oblig(bad == "")
+				if bad != "" {
+					r.find(c.short(fn)+":comparator indexes "+bad+", not the sorted slice", c.instrPos(call), "%s: the comparator passed to %s indexes %s with its arguments, but the slice being sorted is %s: positions refer to the slice as the sort rearranges it, so the comparison is of stale values and the result is not sorted", c.short(fn), cal.String(), bad, valName(sorted))
+				}
+			}
+		}
+	}
+	r.inst("%d functions of package %s scanned for sort.Slice comparators", nf, pkgRel)
 	return r
 }
